@@ -1040,6 +1040,187 @@ def workdir_execute(case):
     return _once(out)
 
 
+# ------------------------------------------------------------------------------------------------
+# part 4: macroscopic data on a library merged from 2-3 xs IDs; the IDs are drawn adversarially (substrings of the
+# other families' labels) so that a suffix filter that is not anchored at the end of the label shows
+
+
+_PLAIN_IDS = ("AA", "AB", "BA", "ZZ", "EA", "CA", "A2", "3A")
+_ELEMENT_IDS = ("FE", "NA", "ZR", "XE", "PU", "FP", "CR", "MO", "NI", "SI", "MN", "U2", "C1")
+
+
+def multi_id_strategy(tier):
+    return st.fixed_dictionaries(
+        {
+            "ng": st.integers(1, 5),
+            "gg": st.integers(1, 3),
+            "base": st.sampled_from(["AA", "AB", "FW", "FW"]),
+            "nucs": st.lists(st.integers(0, 49), min_size=2, max_size=5, unique=True),
+            "families": st.sampled_from([2, 2, 3]),
+            "firstId": st.sampled_from(_PLAIN_IDS),
+            "idMode": st.lists(st.sampled_from(["window", "window", "element", "plain"]), min_size=2, max_size=2),
+            "idPick": st.lists(st.integers(0, 40), min_size=2, max_size=2),
+            "scales": st.lists(st.integers(0, 3), min_size=3, max_size=3),
+            "band": st.sampled_from([0, 0, 1, 2]),
+            "gamma": st.booleans(),
+            "order": st.integers(0, 719),
+            "dens": st.lists(st.lists(_dens(), min_size=5, max_size=5), min_size=3, max_size=3),
+        }
+    )
+
+
+def _windows(labels, xsid):
+    """Two-character windows of the full labels, other than the trailing xs ID itself."""
+    res = set()
+    for lab in labels:
+        full = lab + xsid
+        for k in range(len(full) - 2):
+            res.add(full[k : k + 2])
+    return res
+
+
+def _creator_compare(out, np, xc, m, coll, chi_coll, names, dens, G, ng, what):
+    """createMacrosFromMicros output against sums over exactly the collections ``coll`` (one per name)."""
+    nn = len(names)
+
+    def refsum(arrs):
+        tot = np.zeros(arrs[0].shape)
+        mag = np.zeros(arrs[0].shape)
+        for i in reversed(range(nn)):
+            term = dens[names[i]] * arrs[i]
+            tot = tot + term
+            mag = mag + np.abs(term)
+        return tot, mag
+
+    vec, mags = {}, {}
+    for rx in xc.BASIC_XS + xc.TOTAL_XS:
+        if rx == xc.NUSIGF:
+            arrs = [np.asarray(c.fission, dtype=float) * np.asarray(c.neutronsPerFission, dtype=float) for c in coll]
+        else:
+            arrs = [np.asarray(getattr(c, rx), dtype=float) for c in coll]
+        vec[rx], mags[rx] = refsum(arrs)
+        _close(out, m[rx], vec[rx], mags[rx], "creator/weighted-sum", "%s %s" % (what, rx))
+    absw = sum(vec[rx] for rx in xc.ABSORPTION_XS)
+    absm = sum(mags[rx] for rx in xc.ABSORPTION_XS)
+    _close(out, m.absorption, absw, absm, "creator/absorption", what)
+    mats = {}
+    for rx in xc.BASIC_SCAT_MATRIX:
+        arrs = [np.zeros((G, G)) if getattr(c, rx) is None else getattr(c, rx).toarray() for c in coll]
+        mats[rx], mags[rx] = refsum(arrs)
+        _close(out, m[rx].toarray(), mats[rx], mags[rx], "creator/scatter-matrix", "%s %s" % (what, rx))
+    tot = mats["elasticScatter"] + mats["inelasticScatter"] + 2.0 * mats["n2nScatter"]
+    totm = mags["elasticScatter"] + mags["inelasticScatter"] + 2.0 * mags["n2nScatter"]
+    _close(out, m.totalScatter.toarray(), tot, totm, "creator/total-scatter", what)
+    rem = absw - vec["n2n"] + tot.sum(axis=0) - np.diag(tot)
+    remm = absm + mags["n2n"] + totm.sum(axis=0) + np.diag(totm)
+    _close(out, m.removal, rem, remm, "creator/removal", what)
+    num = np.zeros(ng)
+    den = 0.0
+    for i in reversed(range(nn)):
+        c = chi_coll[i]
+        f = float(np.sum(np.asarray(c.neutronsPerFission) * np.asarray(c.fission)))
+        num = num + np.asarray(c.chi, dtype=float) * dens[names[i]] * f
+        den += dens[names[i]] * f
+    chi = num / den if den != 0.0 else np.zeros(ng)
+    _close(out, m.chi, chi, np.abs(chi) * 10 + 1e-12, "creator/block-chi", what)
+
+
+def multi_id_execute(case):
+    import numpy as np
+
+    from armi.nuclearDataIO import xsCollections as xc
+    from armi.nuclearDataIO import xsLibraries
+
+    out = Out()
+    guard = _global_guard()
+    base = case["base"]
+    gamma = case["gamma"] and base != "FW"  # GAMISO fixtures exist for AA/AB only
+    proto = dict(base=base, suffix=0, nucs=case["nucs"], band=case["band"], ng=case["ng"], gg=case["gg"])
+    _idx, plain = L.spec_labels(dict(proto, kind="iso", xsid="  "))
+    nuc_labels = [lab[:-2] for lab in plain]
+    # ---- xs IDs: the first is plain, the others are windows of the earlier families' labels / element symbols
+    ids = [case["firstId"]]
+    adversarial = 0
+    for k in range(case["families"] - 1):
+        mode = case["idMode"][k]
+        cands = []
+        if mode == "window":
+            cands = sorted(set().union(*[_windows(nuc_labels, x) for x in ids]) - set(ids))
+        elif mode == "element":
+            # leading characters of the drawn labels (FE of FE54.., U2 of U235.., CA of C + AA), then a fixed list
+            own = sorted({(lab + ids[0])[:2] for lab in nuc_labels} - set(ids))
+            cands = own or [x for x in _ELEMENT_IDS if x not in ids]
+        if not cands:
+            cands = [x for x in _PLAIN_IDS if x not in ids]
+        ids.append(cands[case["idPick"][k] % len(cands)])
+    for a in ids:
+        for b in ids:
+            if a != b and a in _windows(nuc_labels, b):
+                adversarial += 1
+    specs = []
+    for f, xsid in enumerate(ids):
+        specs.append(dict(proto, kind="iso", xsid=xsid, scale=case["scales"][f]))
+        if gamma:
+            specs.append(dict(proto, kind="gam", xsid=xsid, scale=case["scales"][(f + 1) % 3]))
+    paths = _files(specs, "q")
+    try:
+        ref = [L.reader(s["kind"])(p) for s, p in zip(specs, paths)]
+        order = list(range(len(specs)))
+        r = case["order"]
+        perm = []
+        while order:  # the r-th permutation (factorial number system)
+            perm.append(order.pop(r % len(order)))
+            r //= max(1, len(order) + 1)
+        lib = xsLibraries.IsotxsLibrary()
+        for j in perm:
+            lib.merge(L.reader(specs[j]["kind"])(paths[j]))
+        before = L.library_snapshot(lib)
+        all_labels = [str(x) for x in lib.nuclideLabels]
+        out.nontrivial = adversarial > 0 and len(nuc_labels) >= 2
+        out.label("families:%d" % len(ids), "adversarial-pairs:%d" % min(adversarial, 3), "base:" + base,
+                  "gamma" if gamma else "neutron-only")
+        ng = lib.numGroups
+        for f, xsid in enumerate(ids):
+            what0 = "ids %s, block suffix %r" % (ids, xsid)
+            # -- the suffix filter itself
+            want = [lab for lab in all_labels if lab[-2:] == xsid]
+            got = [str(n.containerKey) for n in lib.getNuclides(xsid)]
+            out.check(got == want, "library/getNuclides-suffix",
+                      lambda: "%s: getNuclides returns %s, labels ending in the suffix are %s" % (what0, got, want))
+            isoref = ref[[i for i, s in enumerate(specs) if s["kind"] == "iso" and s["xsid"] == xsid][0]]
+            labels = [lab + xsid for lab in nuc_labels]
+            names = [isoref[lab].name for lab in labels]
+            for lab, nm in zip(labels, names):
+                n = lib.getNuclide(nm, xsid)
+                out.check(str(n.containerKey) == lab, "library/getNuclide", lambda: "%s: getNuclide(%r) is %s" % (what0, nm, n))
+            dens = {nm: float(case["dens"][f][i % 5]) for i, nm in enumerate(names)}
+            if not any(dens.values()):
+                dens[names[0]] = 0.01
+            blk = _DuckBlock(dens, xsid)
+            iso = [isoref[lab].micros for lab in labels]
+            m = xc.MacroscopicCrossSectionCreator().createMacrosFromMicros(lib, blk)
+            _creator_compare(out, np, xc, m, iso, iso, names, dens, ng, ng, what0 + ", micros")
+            if gamma:
+                gamref = ref[[i for i, s in enumerate(specs) if s["kind"] == "gam" and s["xsid"] == xsid][0]]
+                gam = [gamref[lab].gammaXS for lab in labels]
+                mg = xc.MacroscopicCrossSectionCreator().createMacrosFromMicros(lib, blk, libType="gammaXS")
+                _creator_compare(out, np, xc, mg, gam, iso, names, dens, lib.numGroupsGamma, ng, what0 + ", gammaXS")
+            for rx, mult in (("nGamma", None), ("fission", "neutronsPerFission")):
+                got_v = xc.computeMacroscopicGroupConstants(rx, dens, lib, xsid, libType="micros", multConstant=mult)
+                tot = np.zeros(ng)
+                mag = np.zeros(ng)
+                for i in reversed(range(len(names))):
+                    t = dens[names[i]] * np.asarray(iso[i][rx], dtype=float) * (1.0 if mult is None else np.asarray(iso[i][mult], dtype=float))
+                    tot, mag = tot + t, mag + np.abs(t)
+                if any(dens.values()):
+                    _close(out, got_v, tot, mag, "macro/weighted-sum", "%s %s" % (what0, rx))
+        _compare(out, L.library_snapshot(lib), before, "macro/library-mutated", "after computing macroscopic constants")
+    finally:
+        _cleanup(paths)
+        _global_check(out, guard)
+    return _once(out)
+
+
 PARTS = [
     Part("merge_orders", merge_execute, strategy=merge_strategy, budget={"quick": 320, "thorough": 8000},
          procs={"quick": 8, "thorough": 16},
@@ -1062,4 +1243,12 @@ PARTS = [
               "mergeXSLibrariesInWorkingDirectory must give the union model (or refuse a group-structure conflict), return "
               "each file's velocities, and skip already merged files on a second call; non-trivial = >= 2 families, "
               ">= 2 files with >= 2 nuclides"),
+    Part("multi_id_macros", multi_id_execute, strategy=multi_id_strategy, budget={"quick": 240, "thorough": 8000},
+         procs={"quick": 6, "thorough": 16},
+         rule="Hypothesis: one nuclide set written under 2-3 xs IDs with different data (ISOTXS, optionally GAMISO; fixtures incl. "
+              "the element-labelled armi/tests/ISOAA) and merged in a drawn order; the later IDs are two-character windows of the "
+              "other families' full labels (EA in FEAA, 5A in U235AA ...), element symbols or plain IDs; for every ID: "
+              "getNuclides(suffix) is exactly the labels ending in it, getNuclide resolves to the own set, "
+              "MacroscopicCrossSectionCreator (neutron, gamma) and computeMacroscopicGroupConstants equal numpy sums over the "
+              "block's own set only; non-trivial = some ID occurs inside another family's label"),
 ]
